@@ -1139,9 +1139,15 @@ class C08(ExpectSpec):
 
 
 class C10(ExpectSpec):
-    level_text = ('Partial. Proved: C10_stack (every list opened by renderList pushes its marker and pops it when it closes; the id stack of '
-                  'lists.render starts empty) and the marker facts of the generated list table (13 markers, three list kinds with their tags). '
-                  'The nesting algorithm against a tree specification is decided by the list-tree oracle and correspondence.')
+    level_text = ('Partial: the stack mechanism is proved, the tree is decided by oracle. Proved: C10_stack_discipline (for every fuel, item, '
+                  'reader and good session with stack L of open list markers, renderList returns with stack L -- the marker it pushes is popped '
+                  'when its list closes, whatever child lists, attached blocks and nested documents are rendered in between, after the repair '
+                  'bd5147e -- and an item it hands back to its caller carries the marker of a list still open there: an item whose marker is '
+                  'already open continues or returns to that list, any other marker opens a child list), C10_top_level_list_closed (from the '
+                  'empty stack of lists.render nothing is handed back), C10_items_well_formed, and the marker facts of the generated list table '
+                  '(13 markers, three list kinds with their tags, the allowed attachments). That the emitted HTML is the tree of the generator '
+                  '(blank-line counting, one attached block, ownership of continuation lines) is decided by the list-tree oracle, the list '
+                  'scenario matrix (every separator x follower x policy) and correspondence.')
     rule = ('list trees over the 13 markers, depth <= 4, mixed kinds, 1-3 text lines per item, optional attached code/quote/division/indented '
             'block, optional single blank lines between items, followed by a paragraph or header; expected HTML from the tree; '
             'non-trivial = nesting depth >= 2 or an attached block')
